@@ -24,9 +24,9 @@ for p in props:
     })
 m = {
     "version": 1,
-    "setup_cmd": "cd lean && lake build QEModel QEProofs qedriver",
+    "setup_cmd": "cd lean && lake build",
     "hooks": {"guard": "QUANTECON_PY_VERIF", "enable": "no source hooks are needed: ./check sets QUANTECON_PY_VERIF=1 (reserved), observes the public API, injects random streams through RandomState/Generator subclasses and uses NUMBA_BOUNDSCHECK=1 in child processes", "baseline_off_cmd": "cd /repo && /venv/bin/python -m pytest -ra -q -p no:cacheprovider --timeout=900 --continue-on-collection-errors", "source_commits": [], "add_only": True},
-    "engines": [{"name": "lean4-model-proof+correspondence", "path": "lean/ (models QEModel/*, theorems QEProofs/Properties/*, driver Main.lean), harness/ (correspondence + spec run), check", "serves_properties": [c["property_id"] for c in checks], "kind_free_text": "machine-checked proof in Lean 4 about hand-written executable models; model tied to the code by a differential correspondence check on every run"}],
+    "engines": [{"name": "lean4-model-proof+correspondence", "path": "lean/ (models QEModel/*, theorems QEProofs/Properties/*, drivers Drivers/Cnn.lean), harness/ (correspondence + spec run), check", "serves_properties": [c["property_id"] for c in checks], "kind_free_text": "machine-checked proof in Lean 4 about hand-written executable models; model tied to the code by a differential correspondence check on every run"}],
     "checks": checks,
     "notes": "fix: commits in /repo and known findings are listed in known_findings.txt; DESIGN.md explains the verdict logic. Exit 2 = tool failure (never a verdict).",
     "not_applicable": na,
